@@ -182,6 +182,13 @@ def native_eval(group, kind, api, flags, cap, data, nat):
         hl = imp.get('hlen'); before = imp.get('hlen_before')
         un = api in ('uninit', 'cfg_uninit')
         if kind == 'headers': return out
+        cells = imp.get('cells')
+        if cells is not None and st == 'C':
+            for i in range(hl or 0, len(cells)):
+                if cells[i] != 'old': out.append(f'slot {i} beyond the count ({hl}) lost its previous content'); break
+        if cells is not None and st != 'C':
+            for i, c in enumerate(cells):
+                if c != 'old' and (not isinstance(c, list) or c[0][0] < 0): out.append(f'slot {i} holds neither its previous content nor a header from this buffer'); break
         if st == 'C':
             if any(isinstance(h, str) for h in imp.get('headers', [])): out.append('exposed element is not from this buffer')
             r = nat['ref']
